@@ -15,6 +15,7 @@ import (
 	"fmt"
 	"sync"
 	"sync/atomic"
+	"time"
 
 	"capnproto.org/go/capnp/v3/zverif/common"
 )
@@ -85,6 +86,12 @@ func (d *c09) runCell(idx uint64, c cell, seed uint64, desc string) (caseOutcome
 		}
 		if c.action != actNone {
 			o.trigAt = c.index
+		}
+		if c.kind == fkNone && c.action == actNone {
+			// Calibration: the operation count must not depend on whether
+			// the Abort made it within AbortTimeout on a loaded machine.
+			// (No fault is injected, so nothing can make the Abort block.)
+			o.abortTO = 10 * time.Second
 		}
 		nb := newBench(d.rec, idx, "C09", o)
 		nb.scenario = scenarios[c.scen].name
